@@ -1428,3 +1428,57 @@ Print Assumptions C06_tr_ex_exec_total.
 Example C06_tr_oracle_ok_nonvacuous : forall bs s bl bc ba,
   TrExParseTotal.oracle_ok (TrExParseTotal.ok_ext s) bs s bl bc ba (fun m bt => nth_error m bt = Some [CLite.VInt 0]).
 Proof. exact TrExParseTotal.ok_ext_ok. Qed.
+
+(* ---- lbuf_cp under ex_yank / ec_delete / ec_yank (coq/TrLbufCp.v, coq/TrLbufCpUse.v; lbuf_cp itself: C04_tr_lbuf_cp in Properties_C04.v).
+   C06_tr_ex_yank / C06_tr_ec_delete / C06_tr_ec_yank take the answer of the oracle for lbuf_cp as a premise
+   (`ext X_lbuf_cp [xb; beg; end] m1 = Ok (VPtr pb 0, m2)`).  C06_tr_cp_discharged: for every oracle that answers X_lbuf_cp by RUNNING the
+   translated lbuf_cp, on every memory that holds the model's lines (each line of ExDefs followed by its newline, as a C string in a block of its
+   own) that premise holds, the block pb starts with exactly the text ExDefs.ex_yank puts into the register (ExDefs.lbuf_cp) and its terminator
+   (the block is longer than the string: sbuf.c's capacity), pb did not exist in m1, nothing that existed in m1 changed -- so TrExCmds.keeps
+   holds for every frame of live blocks -- and the struct sbuf has been freed.  Side conditions the premise form hides: 0 <= beg, the copy is at
+   most 500 MB, one unit of loop fuel per row.  C06_tr_ex_yank_cp: ex_yank with the real lbuf_cp under it (reg_put stays an oracle). *)
+From NV Require CLite CLiteProps CLiteExt GenCFuncs ExDefs TrExAddr TrExCmds TrCmp4Str TrMot TrViOp TrLbufCp TrLbufCpUse.
+Theorem C06_tr_cp_discharged : forall (ext : nat -> list CLite.val -> CLite.mem -> CLite.res (CLite.val * CLite.mem)) (fuel d : nat)
+    (m1 : CLite.mem) (bl : nat) (lb : ExDefs.lbuf) (b e : Z),
+  (forall args m, ext GenCFuncs.X_lbuf_cp args m = CLite.callf GenCFuncs.cprog fuel (S (S (S (S d)))) GenCFuncs.F_lbuf_cp args m) ->
+  TrLbufCp.cp_view m1 bl (TrLbufCpUse.ex_lines lb) -> (0 <= b)%Z -> TrExAddr.int_ok e ->
+  (Z.of_nat (length (ExDefs.lbuf_cp lb (Z.to_nat b) (Z.to_nat e))) <= 500000000)%Z -> (Z.to_nat (e - b) < fuel)%nat ->
+  exists pb m2, ext GenCFuncs.X_lbuf_cp [CLite.VPtr bl 0; CLite.VInt b; CLite.VInt e] m1 = CLite.Ok (CLite.VPtr pb 0%Z, m2) /\
+    TrCmp4Str.pstr_at m2 pb (ExDefs.lbuf_cp lb (Z.to_nat b) (Z.to_nat e)) /\ Bytes.nonul (ExDefs.lbuf_cp lb (Z.to_nat b) (Z.to_nat e)) /\
+    (length m1 < pb < length m2)%nat /\ nth_error m2 (length m1) = Some [] /\
+    (forall k, (k < length m1)%nat -> nth_error m2 k = nth_error m1 k) /\
+    (forall fr, (forall k, In k fr -> (k < length m1)%nat) -> TrExCmds.keeps fr m1 m2).
+Proof. exact TrLbufCpUse.tr_cp_discharged_C06. Qed.
+Print Assumptions C06_tr_cp_discharged.
+
+Theorem C06_tr_ex_yank_cp : forall (ext : nat -> list CLite.val -> CLite.mem -> CLite.res (CLite.val * CLite.mem)) (fuel d D : nat)
+    (mm : CLite.mem) (bl : nat) (lb : ExDefs.lbuf) (reg b e : Z),
+  (forall args m, ext GenCFuncs.X_lbuf_cp args m = CLite.callf GenCFuncs.cprog fuel (S (S (S (S d)))) GenCFuncs.F_lbuf_cp args m) ->
+  TrExCmds.xb_view mm bl -> TrLbufCp.cp_view mm bl (TrLbufCpUse.ex_lines lb) -> (0 <= b)%Z -> TrExAddr.int_ok e ->
+  (Z.of_nat (length (ExDefs.lbuf_cp lb (Z.to_nat b) (Z.to_nat e))) <= 500000000)%Z -> (Z.to_nat (e - b) < fuel)%nat ->
+  exists pb m2, TrCmp4Str.pstr_at m2 pb (ExDefs.lbuf_cp lb (Z.to_nat b) (Z.to_nat e)) /\
+    (forall k, (k < length mm)%nat -> nth_error m2 k = nth_error mm k) /\
+    forall u m3 c blk, ext GenCFuncs.X_reg_put [CLite.VInt reg; CLite.VPtr pb 0%Z; CLite.VInt 1%Z] m2 = CLite.Ok (u, m3) ->
+      nth_error m3 pb = Some (c :: blk) ->
+      CLiteExt.callx ext GenCFuncs.cprog fuel (S (S D)) GenCFuncs.F_ex_yank [CLite.VInt reg; CLite.VInt b; CLite.VInt e] mm
+      = CLite.Ok (CLite.VUndef, CLiteProps.upd m3 pb []).
+Proof. exact TrLbufCpUse.tr_ex_yank_cp. Qed.
+Print Assumptions C06_tr_ex_yank_cp.
+
+(* not vacuous, and the translated lbuf_cp RUNS: the buffer "ab\n", "cde\n", "f\n" of TrViOp.op_mem is the ExDefs buffer with the lines ab, cde, f;
+   lbuf_cp(xb, 1, 3) returns a block that starts with "cde\nf\n" and the terminator = ExDefs.lbuf_cp of rows 1..2; the memory satisfies cp_view;
+   the oracle TrLbufCpUse.ext_cp runs the C text. *)
+Example C06_tr_cp_runs :
+  let lb := ExDefs.mklb [ExDefs.mkline 0 0 [97; 98]%N; ExDefs.mkline 1 0 [99; 100; 101]%N; ExDefs.mkline 2 0 [102]%N] [] [] 0 0%Z 0%Z 0%Z 3 in
+  let m := TrViOp.op_mem 0 0 in
+  (match CLite.callf GenCFuncs.cprog 50 8 GenCFuncs.F_lbuf_cp [CLite.VPtr (length GenCFuncs.cglobals) 0%Z; CLite.VInt 1%Z; CLite.VInt 3%Z] m with
+   | CLite.Ok (CLite.VPtr pb 0%Z, m') => firstn 7 (nth pb m' []) = CLite.cstr_block (CLiteProps.zb (ExDefs.lbuf_cp lb 1 3)) /\ (length m < pb)%nat
+   | _ => False
+   end) /\
+  ExDefs.lbuf_cp lb 1 3 = [99; 100; 101; 10; 102; 10]%N /\
+  TrLbufCp.cp_view m (length GenCFuncs.cglobals) (TrLbufCpUse.ex_lines lb) /\
+  (forall args m0, TrLbufCpUse.ext_cp 50 4 GenCFuncs.X_lbuf_cp args m0 = CLite.callf GenCFuncs.cprog 50 8 GenCFuncs.F_lbuf_cp args m0).
+Proof.
+  cbv zeta. split; [vm_compute; split; [reflexivity|Lia.lia]|]. split; [reflexivity|]. split; [|exact (TrLbufCpUse.ext_cp_is 50 4)].
+  apply (TrLbufCpUse.mot_at_view _ _ _ _ _ (TrViOp.ed_lb _ _ _ _ _ (TrViOp.op_mem_ed 0 0))). vm_compute. discriminate.
+Qed.
